@@ -30,6 +30,8 @@ package source
 //@   requires c != nil
 //@   ensures [empty-token-is-zero] c.Token == "" ==> result == 0
 //@   ensures [token-round-trip] forall n int :: 0 <= n && n <= 9223372036854775807 && c.Token == itoa(n) && c.Token != "" ==> result == n
+//@   ensures [C08,C18:the-position-is-a-function-of-the-token-text-so-two-readings-of-one-token-agree] result == incrOf(c.Token)
+//@ spec incrOf(tok string) int = tok == "" ? 0 : (atoiOk(tok) ? atoi(tok) : 0)
 
 // the continuation handed to the pipeline together with a batch is the one the read of that batch returned
 //@ assumed (*server.Dataset).ProcessChanges
@@ -299,6 +301,60 @@ package source
 //@     invariant d.DependencyTokens != nil && d.DependencyTokens[dep.Dataset] == sinceG && sinceG != 0
 //@   loop 2
 //@     invariant d.DependencyTokens != nil && d.DependencyTokens[dep.Dataset] == sinceG && sinceG != 0
+
+// the query goroutine of one join: for every start point it asks for the join's predicate and direction in the two joined
+// datasets at the time of this run, starting at the start point's own index key, and follows the continuation of each
+// page; for a first, non-inverse join it asks once more "as it stood at the previous run": the point in time is the
+// recorded time of the change-log entry just before the dependency token - that very entry, whether or not the entity
+// was written again since (a latest-only read would skip a superseded entry and return the change that removed the link)
+//@ assumed (*server.Dataset).GetChanges
+//@   pure
+//@   ensures ret1 == nil ==> ret0 != nil
+//@ assumed (*server.Store).GetRelatedAtTime
+//@   preserves server.RelatedFrom.*, MultiSource.*, Dependency.*, StringDatasetContinuation.*, Join.*, Cell.*, Enc.*, []uint8, []uint32, []uint64
+//@ unit (*MultiSource).processDependency$1
+//@   prop C18
+//@   ghost firstG bool = true
+//@   ghost contG *server.RelatedFrom = nil
+//@   ghost pfirstG bool = true
+//@   ghost pcontG *server.RelatedFrom = nil
+//@   ghost tokG int = 0
+//@   requires multiSource != nil && multiSource.Store != nil && depSince != nil && depDataset != nil
+//@   at call PutUint64#1
+//@     ghost firstG := true
+//@     ghost pfirstG := true
+//@   at call GetRelatedAtTime#1 before
+//@     assert [C18:relations-of-a-start-point-are-asked-for-with-the-joins-predicate-and-direction-in-the-joined-datasets-at-the-time-of-this-run] firstG ==> from != nil && from.Predicate == predID && from.Inverse == join.Inverse && from.Datasets == datasets && from.At == queryTime && len(from.RelationIndexFromKey) == 10 && encBE64(from.RelationIndexFromKey, 2) == rid && encBE16(from.RelationIndexFromKey, 0) == (join.Inverse ? 2 : 3)
+//@     assert [C18:later-pages-of-a-start-point-follow-the-continuation-of-the-page-before] !firstG ==> from == contG && contG != nil
+//@     assert [C18:pages-are-as-large-as-the-batch] limit == batchSize
+//@   at call GetRelatedAtTime#1
+//@     ghost contG := $result1
+//@     ghost firstG := false
+//@   at call AsIncrToken#2
+//@     ghost tokG := $result
+//@   at call GetChanges#1 before
+//@     assert [C18:the-time-of-the-previous-run-is-the-recorded-time-of-the-change-entry-just-before-the-dependency-token-superseded-or-not] $arg0 == depDataset && $arg1 == tokG - 1 && tokG > 0 && count == 1 && !latestOnly
+//@   at call GetRelatedAtTime#2 before
+//@     assert [C18:removed-first-hop-links-are-asked-for-as-they-stood-at-the-previous-run] pfirstG ==> from != nil && from.At == changes.Entities[0].Recorded && from.Predicate == predID && !from.Inverse && !join.Inverse && idx == 0 && from.Datasets == datasets && len(from.RelationIndexFromKey) == 10 && encBE64(from.RelationIndexFromKey, 2) == rid && encBE16(from.RelationIndexFromKey, 0) == 3
+//@     assert [C18:later-pages-of-the-back-dated-query-follow-the-continuation-of-the-page-before] !pfirstG ==> from == pcontG && pcontG != nil
+//@     assert [C18:pages-are-as-large-as-the-batch] limit == batchSize
+//@   at call GetRelatedAtTime#2
+//@     ghost pcontG := $result1
+//@     ghost pfirstG := false
+//@   loop 2
+//@     invariant firstG ==> nextRelatedFrom == relatedFrom
+//@     invariant !firstG ==> nextRelatedFrom == contG && contG != nil
+//@     invariant pfirstG
+//@     invariant relatedFrom != nil && relatedFrom.Predicate == predID
+//@     invariant relatedFrom.Inverse == join.Inverse
+//@     invariant relatedFrom.Datasets == datasets
+//@     invariant relatedFrom.At == queryTime
+//@     invariant len(relatedFrom.RelationIndexFromKey) == 10
+//@     invariant encBE64(relatedFrom.RelationIndexFromKey, 2) == rid
+//@     invariant encBE16(relatedFrom.RelationIndexFromKey, 0) == (join.Inverse ? 2 : 3)
+//@   loop 4
+//@     invariant pfirstG ==> prevRelatedFrom == relatedFrom && relatedFrom != nil && relatedFrom.At == changes.Entities[0].Recorded && relatedFrom.Predicate == predID && !relatedFrom.Inverse && !join.Inverse && idx == 0 && relatedFrom.Datasets == datasets && len(relatedFrom.RelationIndexFromKey) == 10 && encBE64(relatedFrom.RelationIndexFromKey, 2) == rid && encBE16(relatedFrom.RelationIndexFromKey, 0) == 3
+//@     invariant !pfirstG ==> prevRelatedFrom == pcontG && pcontG != nil
 
 // the callbacks handed to ProcessChanges collect every changed entity exactly once, in change order: the internal id as a
 // start point of the join queries (dependency), the entity itself as a member of the batch (main dataset)
